@@ -153,7 +153,7 @@ func (vc *VC) havocFor(st *State, ms modSet, ls *LoopSpec, entry *State) *State 
 func frameFact(newH, oldH string, targets []string, alloc string) string {
 	conds := []string{"(< r!f " + alloc + ")"}
 	for _, t := range targets {
-		conds = append(conds, not(eq("r!f", t)))
+		conds = append(conds, not(t))
 	}
 	return fmt.Sprintf("(forall ((r!f Int)) (! (=> %s (= (select %s r!f) (select %s r!f))) :pattern ((select %s r!f))))", and(conds...), newH, oldH, newH)
 }
@@ -214,7 +214,7 @@ func (vc *VC) checkFrame(st, from *State, writes []*Clause, kind, where string, 
 		}
 		conds := []string{"(< r!f " + from.alloc + ")", "(<= 0 r!f)"}
 		for _, t := range targets[h] {
-			conds = append(conds, not(eq("r!f", t)))
+			conds = append(conds, not(t))
 		}
 		goal := fmt.Sprintf("(forall ((r!f Int)) (=> %s (= (select %s r!f) (select %s r!f))))", and(conds...), cur.S, old.S)
 		vc.oblige(st, kind, "frame of "+h, where, goal, nil)
@@ -271,7 +271,29 @@ func (vc *VC) execFor(st *State, x *ast.ForStmt, label string) []*State {
 		vc.checkInvs(o, ls, "inv-preserve", entry, n, vc.pos(x))
 	}
 	exits = append(exits, tg.breaks...)
+	vc.anchors(exits, fmt.Sprintf("afterloop%d", n), entry)
 	return exits
+}
+
+// anchors applies `assert @anchor: e` / `assume @anchor: e` clauses to the given states.
+func (vc *VC) anchors(sts []*State, anchor string, lentry *State) {
+	for _, c := range vc.spec.Asserts {
+		if c.Name != anchor {
+			continue
+		}
+		vc.usedAnchors[anchor] = true
+		for _, s := range sts {
+			env := vc.specEnv(s, vc.entry)
+			env.lentry = lentry
+			g := env.evalBool(c.Expr)
+			if c.Kind == "assert" {
+				vc.oblige(s, "assert@"+anchor, c.Text, c.Where, g, c.Props)
+			} else {
+				vc.note("assumed (" + vc.fi.Key + " @" + anchor + "): " + c.Text)
+			}
+			s.assume(g)
+		}
+	}
 }
 
 func (vc *VC) execRange(st *State, x *ast.RangeStmt, label string) []*State {
@@ -447,6 +469,7 @@ func (vc *VC) execRange(st *State, x *ast.RangeStmt, label string) []*State {
 		vc.checkInvs(o, ls, "inv-preserve", entry, n, vc.pos(x))
 	}
 	exits := append([]*State{exitSt}, tg.breaks...)
+	vc.anchors(exits, fmt.Sprintf("afterloop%d", n), entry)
 	return exits
 }
 
